@@ -1045,6 +1045,11 @@ func setChild(md map[uint32]*metadataEntry, pb *bolt.Bucket, pid uint32, base st
 	if md[pid].children == nil {
 		md[pid].children = make(map[string]childEntry)
 	}
+	if c, ok := md[pid].children[base]; ok && c.id == id {
+		// Already linked to the parent (e.g. a directory created implicitly
+		// before its own entry appears, or a repeated directory entry).
+		return nil
+	}
 	md[pid].children[base] = childEntry{base, id}
 	if isDir {
 		numLink, _ := binary.Varint(pb.Get(bucketKeyNumLink))
